@@ -36,6 +36,12 @@ fn sorted(mut v: Vec<u64>) -> Vec<u64> {
 /// larger number), levels >= 1 sorted and disjoint in internal-key order, adjacent files may share
 /// the boundary user key (older versions in the later file)
 pub fn gen_layout(rng: &mut Prng) -> Vec<Vec<FileDump>> {
+    gen_layout_deep(rng, 0)
+}
+
+/// `upto` = 0: one to three deeper levels (levels 1..=4); otherwise every level below `upto` may get
+/// files (each deeper level is left empty with chance 1/3)
+pub fn gen_layout_deep(rng: &mut Prng, upto: usize) -> Vec<Vec<FileDump>> {
     let mut next_num = 10u64;
     let mut levels: Vec<Vec<FileDump>> = vec![vec![]; 7];
     let key = |i: u64| format!("k{:03}", i).into_bytes();
@@ -53,7 +59,11 @@ pub fn gen_layout(rng: &mut Prng) -> Vec<Vec<FileDump>> {
             std::mem::swap(&mut f.smallest.1, &mut f.largest.1);
         }
     }
-    for l in 1..rng.range(2, 5) as usize {
+    let top = if upto == 0 { rng.range(2, 5) as usize } else { upto };
+    for l in 1..top {
+        if upto != 0 && rng.chance(1, 3) {
+            continue;
+        }
         let mut pos = rng.below(6);
         let mut last: Option<(Vec<u8>, u64)> = None;
         for _ in 0..rng.below(8) {
